@@ -386,6 +386,8 @@ func init() {
 	register("c08.annraw", c08History)
 	register("c08.indir", c08History)
 	register("c08.opentext", c08History)
+	register("c08.samepath", c08History)
+	register("c08.samepathraw", c08History)
 	register("c08.one", c08One)
 	register("c08.fresh", c08Fresh)
 }
